@@ -184,6 +184,7 @@ struct ScriptedServer : HttpServer
   using HttpServer::HttpServer;
   std::optional<Script> upgradeScript;
   bool suppressHook = false;
+  int suppressThrow = 0;                     // 1: the seam throws a std::exception, 2: something else
   std::atomic<bool> flipInUserCode{false};   // "stop() is called while user code runs": user code sets _shutdown
   std::atomic<bool> userSuppressed{false};   // a handler returned with _suppressSend set / the seam returned true
 
@@ -198,6 +199,8 @@ struct ScriptedServer : HttpServer
   }
   bool onResponseSuppressed(SessionId, const Request&, Response&) override
   {
+    if (suppressThrow == 1) throw std::runtime_error("scripted seam failure");
+    if (suppressThrow == 2) throw 42;
     if (suppressHook) userSuppressed.store(true);
     return suppressHook;
   }
@@ -330,6 +333,7 @@ struct Lock
     s->_defaultHandler = nullptr;
     s->upgradeScript.reset();
     s->suppressHook = false;
+    s->suppressThrow = 0;
   }
 
   bool poolIdle()
@@ -585,9 +589,10 @@ int main()
         L.s->upgradeScript = sc;
         return "ok";
       }
-      if (t.size() == 3 && t[0] == "hook" && t[1] == "suppress" && (t[2] == "0" || t[2] == "1"))
+      if (t.size() == 3 && t[0] == "hook" && t[1] == "suppress" && (t[2] == "0" || t[2] == "1" || t[2] == "thr" || t[2] == "thx"))
       {
         L.s->suppressHook = t[2] == "1";
+        L.s->suppressThrow = t[2] == "thr" ? 1 : (t[2] == "thx" ? 2 : 0);
         return "ok";
       }
       if (t.size() == 4 && t[0] == "req" && vh::ofHex(t[1], d) && t[2].size() == 6)
@@ -649,6 +654,21 @@ int main()
           std::lock_guard<std::mutex> g(L.s->_sessionMutex);
           L.s->_sessionInfo[sid];
         }
+        L.s->handleIncomingData(sid, d.data(), d.size());
+        if (!L.waitQuiescent(5000)) return "pool-not-quiescent";
+        return L.delta();
+      }
+      if (t.size() == 4 && t[0] == "parr2" && vh::parseNat(t[1], n) && vh::ofHex(t[2], d))
+      {
+        // two complete requests in ONE read: the extraction loop of handleIncomingData runs twice (two tryEnqueue)
+        Bytes d2;
+        if (!vh::ofHex(t[3], d2)) return "bad-op";
+        SessionId sid = static_cast<SessionId>(n);
+        {
+          std::lock_guard<std::mutex> g(L.s->_sessionMutex);
+          L.s->_sessionInfo[sid];
+        }
+        d.insert(d.end(), d2.begin(), d2.end());
         L.s->handleIncomingData(sid, d.data(), d.size());
         if (!L.waitQuiescent(5000)) return "pool-not-quiescent";
         return L.delta();
@@ -741,7 +761,7 @@ int main()
           if (i) o += " ";
           const auto& r = res[i];
           if (r.err) { o += "connect-failed"; continue; }
-          if (r.data.size() <= 400000) o += vh::toHex(r.data);
+          if (r.data.size() <= 8000000) o += vh::toHex(r.data);
           else o += "big:" + std::to_string(r.data.size()) + ":" + vh::toHex(r.data.substr(0, 4096));
           o += std::string(":") + (r.eof ? "1" : "0") + ":" + (r.timedOut ? "1" : "0");
         }
